@@ -183,7 +183,10 @@ def plan_c01(c):
     n = gen_replay(c, "roundtrip", "Trace_Wire", "Trace_Wire_C01.cfg", "C01 round trip")
     m, _ = tv(c, "roundtrip", "Trace_Wire", "Trace_Wire_C01.cfg", "C01 round trip (seeded rich packets)")
     c.traces += m
-    return n + m
+    # the same in the debug profile (debug assertions and overflow checks on): "encoding succeeds" must not depend on it
+    d, _ = tv(c, "roundtrip", "Trace_Wire", "Trace_Wire_C01.cfg", "C01 round trip (debug build)", profile="debug")
+    c.traces += d
+    return n + m + d
 
 
 def plan_c02(c):
@@ -302,6 +305,10 @@ def plan_accept(area, cfg, what, mc=True, gen=None):
         mc_poll(c)
         m, _ = tv(c, area, "Trace_Accept", cfg, what, shard=4000)
         c.traces += m
+        if area == "reenc":
+            d, _ = tv(c, area, "Trace_Accept", cfg, what + " (debug build)", shard=4000, profile="debug")
+            c.traces += d
+            m += d
         return m
     return plan
 
